@@ -831,4 +831,85 @@ example : run asciiPrims (.equal ([117, 64] ++ longAce) ([85, 64] ++ longAce.map
 example : run asciiPrims (.validdomain longAce) = .flag false := by decide
 example : run asciiPrims ((Call.forlookup [0x63, 0xE9]).mapArgs decodeUtf8) ≠ .panic := C17_no_panic_bytes _ _
 
+/-! ## Round 10: answers do not depend on the history or on concurrent callers
+
+`runHist` / `runPar` answer every call with `run`: the statements below are what a caller may rely on, and what the
+`hist` / `par` ops (real code: calls made one after the other on names the process has not seen before, and the same
+calls made by several goroutines at once) tie to the code. -/
+
+theorem C17_hist_length (P : Prims) (cs : List Call) : (runHist P cs).length = cs.length := by
+  simp [runHist]
+
+/-- **C17 (no hidden state).** The `i`-th answer of a history is `run` of the `i`-th call, whatever was asked before. -/
+theorem C17_hist_answer (P : Prims) (cs : List Call) (i : Nat) (h : i < cs.length) :
+    (runHist P cs)[i]? = some (run P cs[i]) := by
+  simp [runHist, h]
+
+/-- the answers to `cs` after any prefix `pre` are the answers to `cs` alone: a first lookup and a later lookup of
+the same strings cannot differ -/
+theorem C17_hist_independent_of_prefix (P : Prims) (pre cs : List Call) :
+    (runHist P (pre ++ cs)).drop pre.length = runHist P cs := by
+  simp [runHist]
+
+/-- the same call twice in one history: the same answer -/
+theorem C17_hist_same_call_same_answer (P : Prims) (cs : List Call) (i j : Nat) (hi : i < cs.length) (hj : j < cs.length)
+    (h : cs[i] = cs[j]) : (runHist P cs)[i]? = (runHist P cs)[j]? := by
+  rw [C17_hist_answer P cs i hi, C17_hist_answer P cs j hj, h]
+
+/-- `Equal(a, b)` asked at any point of a history and `Equal(b, a)` asked at any other point agree -/
+theorem C17_hist_equal_symmetric (P : Prims) (cs : List Call) (a b : Str) (i j : Nat)
+    (hi : i < cs.length) (hj : j < cs.length) (h1 : cs[i] = .equal a b) (h2 : cs[j] = .equal b a) :
+    (runHist P cs)[i]? = (runHist P cs)[j]? := by
+  rw [C17_hist_answer P cs i hi, C17_hist_answer P cs j hj, h1, h2]
+  simp only [run]
+  cases hab : equal P a b <;> cases hba : equal P b a <;> try rfl
+  · rw [C17_equal_symm P b a hba] at hab; cases hab
+  · rw [C17_equal_symm P a b hab] at hba; cases hba
+
+/-- `Equal(a, b)` asked at any point of a history agrees with the keys `ForLookup` hands out at any other points of
+the same history -/
+theorem C17_hist_equal_iff_keys (P : Prims) (cs : List Call) (a b : Str) (i j k : Nat)
+    (hi : i < cs.length) (hj : j < cs.length) (hk : k < cs.length)
+    (h1 : cs[i] = .equal a b) (h2 : cs[j] = .forlookup a) (h3 : cs[k] = .forlookup b) :
+    ∃ r ka oka kb okb, (runHist P cs)[i]? = some (.flag r) ∧ (runHist P cs)[j]? = some (.res ka oka) ∧
+      (runHist P cs)[k]? = some (.res kb okb) ∧ (r = true ↔ ka = kb) := by
+  refine ⟨equal P a b, key P a, (forLookup P a).2, key P b, (forLookup P b).2, ?_, ?_, ?_, C17_equal_iff_key_eq P a b⟩
+  · rw [C17_hist_answer P cs i hi, h1]; rfl
+  · rw [C17_hist_answer P cs j hj, h2]; rfl
+  · rw [C17_hist_answer P cs k hk, h3]; rfl
+
+/-- **C17 (concurrent callers).** What thread `t` sees for its `i`-th call is `run` of that call: it does not depend
+on the other threads' programs (nor on any schedule — none occurs in `runPar`). -/
+theorem C17_par_answer (P : Prims) (ts : List (List Call)) (t i : Nat) (ht : t < ts.length) (hi : i < ts[t].length) :
+    ∃ os, (runPar P ts)[t]? = some os ∧ os[i]? = some (run P (ts[t])[i]) := by
+  refine ⟨runHist P ts[t], ?_, C17_hist_answer P _ i hi⟩
+  simp [runPar, ht]
+
+/-- the same program next to any other threads: the same answers as alone -/
+theorem C17_par_independent_of_other_threads (P : Prims) (before after : List (List Call)) (cs : List Call) :
+    (runPar P (before ++ cs :: after))[before.length]? = some (runHist P cs) := by
+  simp [runPar]
+
+/-- any serialisation of the calls (a permutation `sched` of `cs`) yields the same answers, call by call -/
+theorem C17_par_schedule_independent (P : Prims) (sched cs : List Call) (h : sched.Perm cs) :
+    (sched.zip (runHist P sched)).Perm (cs.zip (runHist P cs)) := by
+  have e : ∀ l : List Call, l.zip (runHist P l) = l.map (fun c => (c, run P c)) := by
+    intro l; induction l with
+    | nil => rfl
+    | cons c l ih => simp [runHist] at ih ⊢; exact ih
+  rw [e, e]; exact h.map _
+
+/-- no answer of a history / of a concurrent caller is a crash -/
+theorem C17_hist_no_panic (P : Prims) (cs : List Call) : Outcome.panic ∉ runHist P cs := by
+  simp only [runHist, List.mem_map, not_exists, not_and]
+  intro c _ h; exact C17_no_panic P c h
+
+/-- the reviewer's shape: first `ForLookup`, `Equal` both ways, `ForLookup` again, in front of an A-label that does
+not decode — the second answer is the first one, `Equal` is `false` both ways (the keys differ) -/
+example : runHist nfcPrims [.forlookup ([69, 0x301, 64] ++ badDom), .equal ([69, 0x301, 64] ++ badDom) ([0xC9, 64] ++ badDom),
+      .equal ([0xC9, 64] ++ badDom) ([69, 0x301, 64] ++ badDom), .forlookup ([69, 0x301, 64] ++ badDom)] =
+    [.res ([101, 0x301, 64] ++ badDom) false, .flag false, .flag false, .res ([101, 0x301, 64] ++ badDom) false] := by decide
+example : runPar asciiPrims [[.forlookup ex1, .forlookup ex2], [.forlookup ex2]] =
+    [[.res ex2 true, .res ex2 true], [.res ex2 true]] := by decide
+
 end MaddyVerif.C17
